@@ -21,7 +21,11 @@ LCall(t) == [Act("l-call") EXCEPT !.h = "boot", !.tag = t]
 Hold(m, q) == [Act("hold-send") EXCEPT !.kind = m, !.q = q]
 \* the last prefix leaves the Return of answer 2 (a new capability in its result, the peer has already finished the question with
 \* releaseResultCaps) inside the transport's send while the hostile message arrives; the driver lets it go afterwards
+LCallC(t) == [Act("l-call") EXCEPT !.h = "boot", !.tag = t, !.kind = "cancellable"]
+LCancel(t) == [Act("l-cancel") EXCEPT !.tag = t]
 Prefixes == { <<Boot, Call1, Fin(2, TRUE), Hold("return", 2), Ret1("ok-newcap")>>,
+              \* a local call was cancelled and its Finish is still inside the transport's send when the next message arrives
+              <<LBoot, PRetBoot, LCallC(101), Hold("finish", 0 - 1), LCancel(101)>>,
               \* an export was created and released again: its id is inside the table but names nothing
               <<Boot, Call1, Ret1("ok-newcap"), Fin(2, TRUE)>>,
               <<>>, <<Boot>>, <<Boot, Call1>>, <<Boot, Call1, Ret1("ok-newcap")>>, <<Boot, Call1c, Ret1("ok-nocap"), Fin(2, FALSE)>>,
@@ -54,7 +58,9 @@ Hostiles == { H("call-unknown-export", 7, 0 - 1, 77), H("call-unknown-answer", 7
               H("release-inflight-result-export", 2, 0 - 1, 0),
               \* descriptors / targets naming an export id that was in use and has been released (ids 1, 2)
               H("call-bad-cap-receiverHosted", 7, 1, 1), H("call-bad-cap-receiverHosted", 7, 0 - 1, 2), H("call-unknown-export", 7, 0 - 1, 1),
-              H("release-unknown", 0 - 1, 0 - 1, 1) }
+              H("release-unknown", 0 - 1, 0 - 1, 1),
+              \* a Return for the question the connection opened last (late for a cancelled one, early or duplicate otherwise)
+              H("return-last-question", 0 - 1, 0 - 1, 0), H("return-last-question-exception", 0 - 1, 0 - 1, 0) }
 
 Probe == << [Act("p-call") EXCEPT !.q = 12, !.on = 1, !.tag = 50, !.kind = "root"], [Act("a-return") EXCEPT !.tag = 50, !.kind = "ok-nocap"],
             [Act("l-bootstrap") EXCEPT !.h = "boot2", !.cap = 9], [Act("l-call") EXCEPT !.h = "boot2", !.tag = 150] >>
